@@ -3,6 +3,7 @@ from __future__ import annotations
 
 import copy
 import itertools
+import re
 import json
 import os
 import subprocess
@@ -79,6 +80,25 @@ def rich_doc(draw):
         # ... and two component enums that share a title (the class is named after the title): both are built in the same phase
         ir["schemas"].append(["ZzStateA", {"k": "enum", "base": "str", "values": list(vals), "null": False, "title": "Zz Shared State"}])
         ir["schemas"].append(["ZzStateB", {"k": "enum", "base": "str", "values": list(reversed(vals)), "null": False, "title": "Zz Shared State"}])
+    # names of which nothing is left after sanitising ("$", "@", "-"): whatever the generator puts in their place must not depend on
+    # the process (one such name per scope: merging of several is C09's subject)
+    if draw(st.integers(0, 2)) == 0:
+        objs = [s_ for _, s_ in ir["schemas"] if s_["k"] == "object" and not s_.get("allOf")]
+        if objs:
+            draw(st.sampled_from(objs))["props"].append([draw(st.sampled_from(["$", "@", "-", "%", "__", "~"])), {"k": "str"}, draw(st.booleans())])
+        if ir["ops"]:
+            op_ = draw(st.sampled_from(ir["ops"]))
+            what = draw(st.sampled_from(["param", "tag", "both"]))
+            if what in ("param", "both") and not any(p_["in"] == "query" and not re.search(r"[A-Za-z0-9]", p_["name"]) for p_ in op_["params"]):
+                op_["params"].append({"name": draw(st.sampled_from(["$", "@", "%"])), "in": "query", "required": False, "schema": {"k": "int"}, "level": "op"})
+            if what in ("tag", "both"):
+                op_["tags"] = [draw(st.sampled_from(["@", "$", "--"]))] + [t for t in op_["tags"]][:1]
+    # a parameter spelled like a name the generated function reserves only in *some* operations ("body" where there is no request
+    # body), next to an operation that has one: what one operation reserves must not leak into another, in whatever order they come
+    bodyless = [o for o in ir["ops"] if not o.get("body") and not any(p_["name"].lower() == "body" for p_ in o["params"])]
+    if bodyless and any(o.get("body") for o in ir["ops"]) and draw(st.integers(0, 1)) == 0:
+        draw(st.sampled_from(bodyless))["params"].append({"name": "body", "in": draw(st.sampled_from(["query", "header"])), "required": False,
+                                                          "schema": {"k": "str"}, "level": "op"})
     return ir
 
 
@@ -87,8 +107,15 @@ def cases(draw, tier):
     kind = draw(st.sampled_from(["seeds", "perm", "perm"]))
     if kind == "seeds":
         irs = [draw(rich_doc()) for _ in range(4)]
+        lit = draw(st.booleans())
+        if lit:
+            # values that differ only in case are distinct Literal alternatives (as Enum members they collide: C06/C14 findings)
+            for ir_ in irs:
+                if draw(st.booleans()):
+                    ir_["schemas"].append(["ZzCase", {"k": "enum", "base": "str", "null": False,
+                                                      "values": draw(st.permutations(["asc", "ASC", "Asc", "desc", "DESC", "x"]))[:draw(st.integers(3, 6))]}])
         return {"kind": "seeds", "irs": irs, "hooks": draw(st.integers(0, 2)) == 0,
-                "cfg": {"literal_enums": draw(st.booleans()), "docstrings_on_attributes": draw(st.booleans())},
+                "cfg": {"literal_enums": lit, "docstrings_on_attributes": draw(st.booleans())},
                 "meta": draw(st.sampled_from(["none", "none", "poetry"])), "extra_seeds": [draw(st.integers(4, 4000)), draw(st.integers(4001, 2**31))]}
     ir = draw(rich_doc())
     n = len(ir["schemas"])
